@@ -18,10 +18,13 @@ package filehandler
 //@   ensures len(path) > 0 ==> len(result) < len(path)
 //@   ensures len(path) == 0 ==> len(result) == 0
 
+// a name that cannot be resolved stands for the empty path (which no entry covers); a resolved one is
+// exactly what the file-system lookup returned - never a lexical guess
 //@ func runner/ptrace/filehandler.realPath props C18
 //@   arith int
 //@   assigns nothing
 //@   abstracts result == realpath(p)
+//@   callsite return: assert @C18 (err != nil ==> len(result) == 0) && (err == nil ==> result == f)
 
 //@ func runner/ptrace/filehandler.(*FileSet).IsInSetSmart props C18 C15
 //@   arith int
